@@ -21,6 +21,18 @@ def f32? (s : String) : Option Flt :=
 def outF64 (f : Flt) : String := natToHex f.toBits
 def outF32 (f : Flt) : String := natToHex (encode32 f)
 
+/-- named types (`myuint64` …, ops `fromf64n` …) follow their underlying kind: the harness' names are mapped back -/
+def kindName (s : String) : String := if s.startsWith "my" then (s.drop 2).toString else s
+def opName (s : String) : String :=
+  if s == "fromf64n" || s == "fromf32n" || s == "asf64n" || s == "asf32n" then (s.dropEnd 1).toString else s
+
+/-- a token of the Fraction text ops: a raw value, or text that is not a number (`FromStringForced` gives 0) -/
+def tok? (w : Int → Int) (s : String) : Option Int :=
+  if s == "bad" || s == "empty" then some 0 else (parseInt? s).map w
+
+def den? (w : Int → Int) (s : String) : Option (Option Int) :=
+  if s == "none" then some none else (tok? w s).map some
+
 /-- `none` (a Go panic) prints as `panic` -/
 def outOpt : Option Int → String
   | some v => toString v
@@ -45,15 +57,41 @@ def run64 (m : Int) (places : Nat) (op : String) (args : List String) : String :
     | "mult", [] => toString m
     | "places", [] => toString places
     | "maxsafe", [] => toString (F64.maxSafeMultiply m)
-    | "from", [k, v] => match kind? k, parseInt? v with
+    | "from", [k, v] => match kind? (kindName k), parseInt? v with
       | some _, some v => toString (F64.fromInt m v) | _, _ => "bad-op"
-    | "as", [k, a] => match kind? k, parseInt? a with
+    | "as", [k, a] => match kind? (kindName k), parseInt? a with
       | some k, some a => toString (F64.asInt k m (wrap64 a)) | _, _ => "bad-op"
     | "fnorm", [n, d] => match parseInt? n, parseInt? d with
       | some n, some d => let p := F64.fracNormalize m (wrap64 n) (wrap64 d); toString p.1 ++ " " ++ toString p.2
       | _, _ => "bad-op"
     | "fval", [n, d] => match parseInt? n, parseInt? d with
-      | some n, some d => outOpt (F64.fracValue m (wrap64 n) (wrap64 d)) | _, _ => "bad-op"
+      | some n, some d =>
+        match F64.fracValue m (wrap64 n) (wrap64 d) with
+        | some v => toString v ++ " " ++ toString (wrap64 n) ++ " " ++ toString (wrap64 d)
+        | none => "panic"
+      | _, _ => "bad-op"
+    | "maximum", [] => toString F64.maxRaw
+    | "minimum", [] => toString F64.minRaw
+    | "fstr", [n, d] => match parseInt? n, parseInt? d with
+      | some n, some d =>
+        let n := wrap64 n; let d := wrap64 d
+        F64.fracString false m n d ++ " " ++ F64.fracString true m n d ++ " \"" ++ F64.fracString false m n d ++ "\" "
+          ++ toString n ++ " " ++ toString d
+      | _, _ => "bad-op"
+    | "fnew", [_, n, d] => match tok? wrap64 n, den? wrap64 d with
+      | some n, some d =>
+        let f := F64.fracNew m n d
+        let p := F64.fracNormalize m f.1 f.2
+        toString f.1 ++ " " ++ toString f.2 ++ " | " ++ toString p.1 ++ " " ++ toString p.2 ++ " | "
+          ++ outOpt (F64.fracValue m f.1 f.2)
+      | _, _ => "bad-op"
+    | "fjson", [_, n, d] => match tok? wrap64 n, den? wrap64 d with
+      | some n, some d =>
+        let f := F64.fracNew m n d
+        let p := F64.fracNormalize m f.1 f.2
+        "ok " ++ toString p.1 ++ " " ++ toString p.2
+      | _, _ => "bad-op"
+    | "fjsonbad", [] => "err 7 9"
     | "fromf64", [x] => match f64? x with
       | some x => outCv (F64.fromFloat m x) | none => "bad-op"
     | "fromf32", [x] => match f32? x with
@@ -89,15 +127,39 @@ def run128 (m : Int) (places : Nat) (op : String) (args : List String) : String 
     | "maxsafe", [] => outOpt (F128.maxSafeMultiply m)
     | "maximum", [] => toString F128.maxRaw
     | "minimum", [] => toString F128.minRaw
-    | "from", [k, v] => match kind? k, parseInt? v with
+    | "from", [k, v] => match kind? (kindName k), parseInt? v with
       | some k, some v => toString (F128.fromInt k m v) | _, _ => "bad-op"
-    | "as", [k, a] => match kind? k, parseInt? a with
+    | "as", [k, a] => match kind? (kindName k), parseInt? a with
       | some k, some a => toString (F128.asInt k m (wrap128 a)) | _, _ => "bad-op"
     | "fnorm", [n, d] => match parseInt? n, parseInt? d with
       | some n, some d => let p := F128.fracNormalize m (wrap128 n) (wrap128 d); toString p.1 ++ " " ++ toString p.2
       | _, _ => "bad-op"
     | "fval", [n, d] => match parseInt? n, parseInt? d with
-      | some n, some d => outOpt (F128.fracValue m (wrap128 n) (wrap128 d)) | _, _ => "bad-op"
+      | some n, some d =>
+        match F128.fracValue m (wrap128 n) (wrap128 d) with
+        | some v => toString v ++ " " ++ toString (wrap128 n) ++ " " ++ toString (wrap128 d)
+        | none => "panic"
+      | _, _ => "bad-op"
+    | "fstr", [n, d] => match parseInt? n, parseInt? d with
+      | some n, some d =>
+        let n := wrap128 n; let d := wrap128 d
+        F128.fracString false m n d ++ " " ++ F128.fracString true m n d ++ " \"" ++ F128.fracString false m n d ++ "\" "
+          ++ toString n ++ " " ++ toString d
+      | _, _ => "bad-op"
+    | "fnew", [_, n, d] => match tok? wrap128 n, den? wrap128 d with
+      | some n, some d =>
+        let f := F128.fracNew m n d
+        let p := F128.fracNormalize m f.1 f.2
+        toString f.1 ++ " " ++ toString f.2 ++ " | " ++ toString p.1 ++ " " ++ toString p.2 ++ " | "
+          ++ outOpt (F128.fracValue m f.1 f.2)
+      | _, _ => "bad-op"
+    | "fjson", [_, n, d] => match tok? wrap128 n, den? wrap128 d with
+      | some n, some d =>
+        let f := F128.fracNew m n d
+        let p := F128.fracNormalize m f.1 f.2
+        "ok " ++ toString p.1 ++ " " ++ toString p.2
+      | _, _ => "bad-op"
+    | "fjsonbad", [] => "err 7 9"
     | "fromf64", [x] => match f64? x with
       | some x => outOpt (F128.fromFloat m places x) | none => "bad-op"
     | "fromf32", [x] => match f32? x with
@@ -117,8 +179,8 @@ def step (_ : Unit) (line : String) : Unit × String :=
       | some k =>
         match mult? k, places? k with
         | some m, some p =>
-          if ty == "f64" then run64 m p op args
-          else if ty == "f128" then run128 m p op args
+          if ty == "f64" then run64 m p (opName op) args
+          else if ty == "f128" then run128 m p (opName op) args
           else "bad-op"
         | _, _ => "bad-op"
     | _ => "bad-op"
